@@ -132,7 +132,15 @@ pub fn run(tape: &[u8], cx: &Cx) -> Outcome {
                 if ptr(dc) != ptr(d) {
                     o.tag("class-derivative-differs-syntactically");
                 }
-                roots.push((q, dc, w));
+                roots.push((q, dc, w.clone()));
+                // the unchecked variant on a valid class id: the same left quotient
+                match crate::runner::catch(std::panic::AssertUnwindSafe(|| mgr.class_derivative_unchecked(e, cid))) {
+                    Ok(du) => roots.push((q, du, w)),
+                    Err(msg) => {
+                        o.fail("C03/valid-class-rejected", format!("{}: class_derivative_unchecked(e, {}) panicked for the class of {}: {}", what, cid, show_char(c), msg));
+                        return o;
+                    }
+                }
             }
             Err(err) => {
                 o.fail("C03/valid-class-rejected", format!("{}: class_derivative(e, {}) = Err({:?}) for the class of {}", what, cid, err, show_char(c)));
